@@ -328,7 +328,7 @@ class Outbound:
                 self._connection.send_record(r)
                 continue
             p = self._get_next_unpaused_producer()
-            if not p:
+            if p is None:  # (a producer may well be a false-y object)
                 break
             self._paused_producers.remove(p)
             self._unpaused_producers.add(p)
